@@ -2,11 +2,15 @@ package engines
 
 import (
 	"fmt"
+	"go/token"
 	"sort"
 	"strings"
 
 	"bngvet/internal/cexec"
 	"bngvet/internal/cfront"
+	"bngvet/internal/flow"
+
+	"golang.org/x/tools/go/ssa"
 )
 
 // bpfUnits are the kernel-side translation units of the repository (every bpf/*.c file; checked against the directory).
@@ -98,4 +102,91 @@ func guardOf(n *cfront.Node) string {
 		child = p
 	}
 	return "unconditional"
+}
+
+// successNeedsMapCall: on every CFG path of f from entry to a `return …, nil` (success), a call of one of
+// methods on the *ebpf.Map field mapField is executed, unless the path took the `m.<mapField> == nil` branch.
+// Returns the position of an offending return.
+func successNeedsMapCall(c *Ctx, f *ssa.Function, mapField string, methods ...string) (bool, string) {
+	isCall := func(in ssa.Instruction) bool {
+		call, ok := in.(ssa.CallInstruction)
+		if !ok {
+			return false
+		}
+		for _, m := range methods {
+			if flow.CalleeIs(call, "cilium/ebpf", "Map", m) {
+				if rv, ok := call.Common().Args[0].(*ssa.UnOp); ok && strings.HasSuffix(flow.FieldOwner(rv.X), "."+mapField) {
+					return true
+				}
+			}
+		}
+		return false
+	}
+	// does the edge b->succ[i] establish that the map field is nil?
+	nilEdge := func(b *ssa.BasicBlock, i int) bool {
+		if len(b.Instrs) == 0 {
+			return false
+		}
+		iff, ok := b.Instrs[len(b.Instrs)-1].(*ssa.If)
+		if !ok {
+			return false
+		}
+		bo, ok := iff.Cond.(*ssa.BinOp)
+		if !ok {
+			return false
+		}
+		u, ok := bo.X.(*ssa.UnOp)
+		if !ok || !strings.HasSuffix(flow.FieldOwner(u.X), "."+mapField) {
+			return false
+		}
+		k, ok := bo.Y.(*ssa.Const)
+		if !ok || k.Value != nil {
+			return false
+		}
+		return (bo.Op == token.EQL && i == 0) || (bo.Op == token.NEQ && i == 1)
+	}
+	type key struct {
+		b         *ssa.BasicBlock
+		done, nil_ bool
+	}
+	seen := map[key]bool{}
+	bad := ""
+	var walk func(b *ssa.BasicBlock, done, isNil bool) bool
+	walk = func(b *ssa.BasicBlock, done, isNil bool) bool {
+		k := key{b, done, isNil}
+		if seen[k] {
+			return true
+		}
+		seen[k] = true
+		for _, in := range b.Instrs {
+			if isCall(in) {
+				done = true
+			}
+			if ret, ok := in.(*ssa.Return); ok {
+				n := len(ret.Results)
+				if n == 0 {
+					return true
+				}
+				last := ret.Results[n-1]
+				if kc, ok := last.(*ssa.Const); ok && kc.Value == nil {
+					if !done && !isNil {
+						bad = c.P.Pos(instrPos(ret))
+						return false
+					}
+				}
+				return true
+			}
+		}
+		for i, s := range b.Succs {
+			if !walk(s, done, isNil || nilEdge(b, i)) {
+				return false
+			}
+		}
+		return true
+	}
+	if f == nil || len(f.Blocks) == 0 {
+		return false, "-"
+	}
+	ok := walk(f.Blocks[0], false, false)
+	return ok, bad
 }
